@@ -303,11 +303,11 @@ func runConcurrent(c *hk.Ctx) {
 	}
 	kib := 1 << 10
 	small := []int{1 * kib, 4 * kib, 16 * kib, 64 * kib, 256 * kib}
-	big := []int{64 * kib, 256 * kib, 256 * kib, 256 * kib, 1 * kib}
+	big := []int{256 * kib, 256 * kib, 256 * kib, 64 * kib, 16 * kib}
 	plans := []plan{
 		{"json", 4, 4, 6, small},
 		{"sse", 4, 4, 6, small},
-		{"legacy-sse", 8, 4, 14, big},
+		{"legacy-sse", 12, 4, 16, big},
 		{"stdio", 2, 8, 8, small},
 	}
 	if c.Thorough() {
@@ -390,6 +390,17 @@ func runConcurrent(c *hk.Ctx) {
 		var wg sync.WaitGroup
 		stop := make(chan struct{})
 		var once sync.Once
+		// every call runs under this context: the first violation ends the phase at once (calls whose answer was lost
+		// would otherwise each sit out their deadline)
+		phaseCtx, phaseCancel := context.WithCancel(context.Background())
+		stopped := func() bool {
+			select {
+			case <-stop:
+				return true
+			default:
+				return false
+			}
+		}
 		for ci := range schedule {
 			for wi := range schedule[ci] {
 				wg.Add(1)
@@ -401,16 +412,19 @@ func runConcurrent(c *hk.Ctx) {
 							return
 						default:
 						}
-						ctx, cancel := context.WithTimeout(context.Background(), 45*time.Second)
+						ctx, cancel := context.WithTimeout(phaseCtx, 30*time.Second)
 						view, err := callers[ci].call(ctx, call.kind, call.tag, call.size)
 						cancel()
 						in := map[string]any{"transport": pl.mode, "request": call.kind, "nonce": call.tag, "size": call.size,
 							"in_flight": fmt.Sprintf("%d clients x %d goroutines", pl.clients, pl.workers)}
+						if stopped() {
+							return // another worker already reported; this call was cut short
+						}
 						if err != nil {
 							c.Count("conc:"+pl.mode+":"+call.tag, false, nil, "e2e.concurrent."+pl.mode)
 							c.Violate(hk.Violation{Fingerprint: "content:" + pl.mode + ":concurrent-call-failed",
 								What: "with many calls in flight a call did not get its result", Input: in, Observed: shortStr(err.Error())})
-							once.Do(func() { close(stop) })
+							once.Do(func() { close(stop); phaseCancel() })
 							return
 						}
 						want, got := canonText(concExpected(call.kind, call.tag, call.size)), canonText(view)
@@ -420,7 +434,7 @@ func runConcurrent(c *hk.Ctx) {
 							c.Violate(hk.Violation{Fingerprint: "content:" + pl.mode + ":concurrent-result-torn",
 								What:  "with many calls in flight a caller received a value that is not what its own handler returned",
 								Input: in, Observed: map[string]any{"first_difference_at": at, "got": g, "len": len(got)}, Expected: map[string]any{"want": w, "len": len(want)}})
-							once.Do(func() { close(stop) })
+							once.Do(func() { close(stop); phaseCancel() })
 							return
 						}
 					}
@@ -428,6 +442,7 @@ func runConcurrent(c *hk.Ctx) {
 			}
 		}
 		wg.Wait()
+		phaseCancel()
 		seen := map[concCaller]bool{}
 		for _, cl := range callers {
 			if !seen[cl] {
